@@ -62,8 +62,15 @@ structure DState where
   specs : List ClusterSpec := []
   world : World := { configCluster := [], clusters := [] }
   cache : Cache := []
+  /-- caches of proxies with a private-key-provider config: their cache keys end in the config's hash, so they
+      form partitions of the one xDS cache that never meet the plain keys (or each other) -/
+  pcaches : List (String × Cache) := []
+  now : Nat := 0
+  acs : List (Str × AuthCache) := []
+  started : Bool := false
   grants : List RefGrant := []
   gws : List GwConfig := []
+  aliases : List (Str × Str) := []
 
 def DState.upd (d : DState) (id : Str) (f : ClusterSpec → ClusterSpec) : DState :=
   if d.specs.any (fun c => c.id == id) then
@@ -76,6 +83,22 @@ def showVal (name : Str) : Val → String
   | .tls c k => String.ofList name ++ " K " ++ String.ofList c ++ " " ++ String.ofList k
   | .ca c => String.ofList name ++ " C " ++ String.ofList c
 
+/-- With a private key provider `toEnvoyTLSSecret` wraps the key in the provider's config. -/
+def showValP (pkp : String) (name : Str) : Val → String
+  | .tls c k =>
+    if pkp == "" then showVal name (.tls c k)
+    else String.ofList name ++ " P:" ++ pkp ++ " " ++ String.ofList c ++ " " ++ String.ofList k
+  | v => showVal name v
+
+def pcacheOf (d : List (String × Cache)) (pkp : String) : Cache :=
+  match d.find? (fun e => e.1 == pkp) with
+  | some e => e.2
+  | none => []
+
+def showAllKeys (plain : Cache) (ps : List (String × Cache)) : String :=
+  "keys=" ++ encSet (plain.map (fun e => String.ofList e.1) ++
+    ps.flatMap (fun pc => pc.2.map (fun e => String.ofList e.1 ++ "H-" ++ pc.1)))
+
 def showKeys (c : Cache) : String := "keys=" ++ encSet (c.map (fun e => String.ofList e.1))
 
 def decKind : String → CK
@@ -86,6 +109,17 @@ def decKind : String → CK
 def zip3 : List String → List String → List String → List CKey
   | k :: ks, n :: ns, s :: ss => ⟨decKind k, n.toList, s.toList⟩ :: zip3 ks ns ss
   | _, _, _ => []
+
+/-- A policy change after `start`: 20 clock seconds pass, then the clusters answer according to the new policy. -/
+def policy (d : DState) : DState :=
+  if d.started then
+    { d with now := d.now + 20, world := { d.world with clusters := d.specs.map ClusterSpec.toCluster } }
+  else d
+
+/-- A policy op: before `start` it configures (creating the cluster spec if needed); afterwards it applies to
+    configured clusters only. -/
+def policyOn (d : DState) (cid : Str) (f : ClusterSpec → ClusterSpec) : DState :=
+  if d.started && !d.specs.any (fun c => c.id == cid) then d else policy (d.upd cid f)
 
 def stepD (d : DState) (toks : List String) : DState × String :=
   match toks with
@@ -115,6 +149,12 @@ def stepD (d : DState) (toks : List String) : DState × String :=
     | none => (d, "err")
     | some r =>
       (d, s!"ok {showRType r.rtype} {l2t r.rtype.kindStr} {l2t r.name} {l2t r.ns} {l2t r.resourceName} {l2t r.cluster} key={l2t r.baseKey}")
+  | ["tkgr", ns, name] => (d, "ok " ++ l2t (toKubernetesGatewayResource (s2l ns) (s2l name)))
+  | ["krn", rn, pns] =>
+    match parseResourceName (s2l rn) (s2l pns) [] [] with
+    | none => (d, "err")
+    | some r => (d, "ok " ++ l2t r.kubernetesResourceName)
+  | ["trn", name] => (d, "ok " ++ l2t (toResourceName (s2l name)))
   -- stream sds
   | ["cluster", cid] => (d.upd (s2l cid) (fun s => s), "ok")
   | ["secret", cl, ns, name, a, b, c, e, f, g] =>
@@ -125,27 +165,40 @@ def stepD (d : DState) (toks : List String) : DState × String :=
     let sd : SecretData := { cacert := decData a, caCrt := decData b }
     (d.upd (s2l cl) (fun s => { s with cms := s.cms ++ [((s2l name, s2l ns), sd)] }), "ok")
   | ["allow", cl, sa, ns] =>
-    (d.upd (s2l cl) (fun s => { s with allow := (s2l sa, s2l ns) :: s.allow }), "ok")
+    (policyOn d (s2l cl) (fun s => { s with allow := (s2l sa, s2l ns) :: s.allow }), "ok")
+  | ["deny", cl, sa, ns] =>
+    (policyOn d (s2l cl) (fun s => { s with allow := s.allow.filter (· ≠ (s2l sa, s2l ns)) }), "ok")
+  | ["sarok", cl] => (policyOn d (s2l cl) (fun s => { s with sarErr := false }), "ok")
+  | ["tick", n] => ({ d with now := d.now + n.toNat! }, "ok")
   | ["start", cfg] =>
-    ({ d with world := { configCluster := s2l cfg, clusters := d.specs.map ClusterSpec.toCluster }, cache := [] }, "ok")
+    ({ d with world := { configCluster := s2l cfg, clusters := d.specs.map ClusterSpec.toCluster }, cache := [],
+              pcaches := [], started := true }, "ok")
   | ["start", cfg, remote] =>
     ({ d with world := { configCluster := s2l cfg, clusters := d.specs.map ClusterSpec.toCluster,
-                         remoteCreds := tokBool remote }, cache := [] }, "ok")
-  | ["clear"] => ({ d with cache := [] }, "ok")
-  | ["gen", hasVid, td, ns, sa, cl, refs, _ptype, _claimed, names, req, uk, un, us] =>
+                         remoteCreds := tokBool remote }, cache := [], started := true }, "ok")
+  | ["clear"] => ({ d with cache := [], pcaches := [] }, "ok")
+  | ["gen", hasVid, td, ns, sa, cl, refs, ptype, _claimed, names, req, uk, un, us] =>
     let p : Proxy := { verified := if tokBool hasVid then some ⟨s2l td, s2l ns, s2l sa⟩ else none,
                        cluster := s2l cl, refs := decIds refs }
     let rq : Option PushReq :=
       if req == "nil" then none else some ⟨tokBool req, zip3 (decList uk) (decList un) (decList us)⟩
-    match generate d.world d.cache p (decL names) rq with
-    | none => (d, "none " ++ showKeys d.cache)
-    | some o =>
-      let elems := o.res.map (fun e => showVal e.1 e.2)
-      ({ d with cache := o.cache },
-       s!"cached:{o.cached}/{o.cached + o.regen} {encList (sortOnly elems)} {showKeys o.cache}")
-  | ["sarerr", cl] => (d.upd (s2l cl) (fun s => { s with sarErr := true }), "ok")
+    let pkp := match ptype.splitOn "+" with
+      | [_, k] => k
+      | _ => ""
+    let cache := if pkp == "" then d.cache else pcacheOf d.pcaches pkp
+    let put := fun (c : Cache) (d : DState) =>
+      if pkp == "" then { d with cache := c }
+      else { d with pcaches := (pkp, c) :: d.pcaches.filter (fun e => e.1 != pkp) }
+    match generateT d.world { cache := cache, now := d.now, acs := d.acs } p (decL names) rq with
+    | (none, t) => ({ d with acs := t.acs }, "none " ++ showAllKeys d.cache d.pcaches)
+    | (some o, t) =>
+      let elems := o.res.map (fun e => showValP pkp e.1 e.2)
+      let d' := put o.cache { d with acs := t.acs }
+      (d', s!"cached:{o.cached}/{o.cached + o.regen} {encList (sortOnly elems)} {showAllKeys d'.cache d'.pcaches}")
+  | ["sarerr", cl] => (policyOn d (s2l cl) (fun s => { s with sarErr := true }), "ok")
   -- stream stream: authenticate, initConnection (initProxyMetadata + authorize), one SDS request
-  | "stream" :: _mode :: xa :: peer :: pt :: flag :: node :: ipok :: mns :: msa :: names :: rs =>
+  | "stream" :: mode :: xa :: peer :: pt :: flag :: node :: ipok :: mns :: msa :: names :: cid :: labels :: names2 ::
+      push :: rs =>
     match authenticate (tokBool xa) (decPeer peer) (tokBool pt) (rs.map decAuthn) with
     | none => (d, "unauthenticated")
     | some ids =>
@@ -154,15 +207,29 @@ def stepD (d : DState) (toks : List String) : DState × String :=
       | some (_, .denied) => (d, "denied")
       | some (cfg, .ok v) =>
         -- MergedGateway exists for router proxies only; its verified set is what mergeGateways computes from the
-        -- world's Gateways, the verified identity and the real ReferenceGrant evaluation
+        -- Gateways attached to the proxy, the verified identity and the real ReferenceGrant evaluation
         let isRouter := (split '~' (s2l node)).head? == some "router".toList
-        let p : Proxy := { verified := v, cluster := "Kubernetes".toList,
-                           refs := if isRouter then some (verifiedRefs (grantEval d.grants) v d.gws) else none }
-        match generate d.world d.cache p (decL names) (some ⟨true, []⟩) with
-        | none => (d, s!"accepted {showId v} cfg={l2t cfg} -")
-        | some o =>
-          ({ d with cache := o.cache },
-           s!"accepted {showId v} cfg={l2t cfg} {encList (sortOnly (o.res.map (fun e => showVal e.1 e.2)))}")
+        let lbls := (decL labels).map fun kv =>
+          match split '=' kv with
+          | [k, x] => (k, x)
+          | _ => (kv, [])
+        let p : Proxy := { verified := v, cluster := resolveAlias d.aliases (s2l cid),
+                           refs := if isRouter then some (verifiedRefs (grantEval d.grants) v (d.gws.filter (attached lbls)))
+                                   else none }
+        let n1 := decL names
+        let n2 := decL names2
+        -- what each phase asks for: request 1; request 2 (SotW: exactly the new list; delta: the names it subscribes);
+        -- the push (everything watched: SotW the latest list, delta the union)
+        let phases : List (List Str) :=
+          [n1] ++ (if names2 == "none" then [] else [n2]) ++
+          (if tokBool push then
+             [if names2 == "none" then n1 else if mode == "delta" then n1 ++ n2.filter (fun x => !n1.contains x) else n2]
+           else [])
+        let run := phases.foldl (fun (acc : Cache × List String) ns =>
+          match generate d.world acc.1 p ns (some ⟨true, []⟩) with
+          | none => (acc.1, acc.2 ++ ["-"])
+          | some o => (o.cache, acc.2 ++ [encList (sortOnly (o.res.map (fun e => showVal e.1 e.2)))])) (d.cache, [])
+        ({ d with cache := run.1 }, s!"accepted {showId v} cfg={l2t cfg} " ++ " ".intercalate run.2)
   -- stream refs
   | ["rgrant", src, frm, fns, to, name] =>
     let g : RefGrant :=
@@ -170,6 +237,14 @@ def stepD (d : DState) (toks : List String) : DState × String :=
         fromNs := s2l fns, toKind := (if to == "S" then .secret else if to == "M" then .configMap else .other),
         name := (if name == "*" then none else some (s2l name)) }
     ({ d with grants := g :: d.grants }, "ok")
+  | ["alias", a, b] => ({ d with aliases := d.aliases ++ [(s2l a, s2l b)] }, "ok")
+  | ["gw", ns, sa, pns, parents, sel] =>
+    let kvs := (decL sel).map fun kv =>
+      match split '=' kv with
+      | [k, x] => (k, x)
+      | _ => (kv, [])
+    ({ d with gws := d.gws ++ [{ ns := s2l ns, saAnn := s2l sa, parentNsAnn := s2l pns, parentsAnn := s2l parents, servers := [],
+                                  selector := some kvs }] }, "ok")
   | ["gw", ns, sa, pns, parents] =>
     ({ d with gws := d.gws ++ [{ ns := s2l ns, saAnn := s2l sa, parentNsAnn := s2l pns, parentsAnn := s2l parents, servers := [] }] }, "ok")
   | ["srv", hasPort, cns, cn, mode, ca] =>
@@ -180,6 +255,16 @@ def stepD (d : DState) (toks : List String) : DState × String :=
     match d.gws.reverse with
     | [] => (d, "ok")
     | g :: rest => ({ d with gws := (({ g with servers := g.servers ++ [sv] } : GwConfig) :: rest).reverse }, "ok")
+  | ["lsacc", loc, par, mode, sel, nsl] =>
+    let kvs := fun (t : String) => (decL t).map fun kv =>
+      match split '=' kv with
+      | [k, x] => (k, x)
+      | _ => (kv, [])
+    let m : ALMode := match mode with
+      | "nil" => .absent | "nons" => .noNamespaces | "All" => .all | "Same" => .same | "None" => .none_
+      | "Selector" => .selector | "Unset" => .unset | _ => .bogus
+    (d, "acc=" ++ boolTok (nsAccepted (s2l loc) (s2l par) m (if sel == "nil" then none else some (kvs sel))
+      (if nsl == "nil" then none else some (kvs nsl))))
   | ["merge", hasVid, td, ns, sa] =>
     let vid := if tokBool hasVid then some (⟨s2l td, s2l ns, s2l sa⟩ : Identity) else none
     let granted : Grants := grantEval d.grants
